@@ -7,6 +7,8 @@ import (
 	"encoding/hex"
 	"fmt"
 	"net"
+	"runtime"
+	"sync/atomic"
 	"strconv"
 	"strings"
 	"sync"
@@ -53,6 +55,7 @@ type Conn struct {
 	// release the last bytes of several conns at the same instant).
 	Gate   chan struct{}
 	AtGate chan struct{}
+	Spin   *int32 // if set, after Gate the Read busy-waits until *Spin != 0 (release within ~100 ns on all cores)
 
 	// Log: what every Read of the endpoint returned, with the harness clock at that moment —
 	// exactly this goes to the model.
@@ -143,6 +146,13 @@ func (c *Conn) Read(b []byte) (int, error) {
 			}
 			if c.Gate != nil {
 				<-c.Gate
+			}
+			if c.Spin != nil {
+				for i := 0; atomic.LoadInt32(c.Spin) == 0; i++ {
+					if i&0xfffff == 0xfffff {
+						runtime.Gosched()
+					}
+				}
 			}
 		case "s":
 			// a real pause; the armed deadline is honoured in real time: if it comes first the
